@@ -171,6 +171,7 @@ where
 
         RefSync {
             inner,
+            origin: thread::current().id(),
             family: self.family.clone(),
         }
     }
@@ -201,6 +202,11 @@ where
     // We really are just a wrapper around an Arc<T>. The only other duty we have
     // is to clean up the thread-local instance when the last `RefSync` is dropped.
     inner: Arc<T>,
+
+    // The thread whose instance of `T` we reference. We stay aligned to this thread
+    // no matter which thread we are moved to, cloned on or dropped on.
+    origin: ThreadId,
+
     family: FamilyStateReference<T>,
 }
 
@@ -224,6 +230,7 @@ where
     fn clone(&self) -> Self {
         Self {
             inner: Arc::clone(&self.inner),
+            origin: self.origin,
             family: self.family.clone(),
         }
     }
@@ -234,16 +241,12 @@ where
     T: linked::Object + Send + Sync,
 {
     fn drop(&mut self) {
-        // If we were the last RefSync on this thread then we need to drop the thread-local
-        // state for this thread. Note that there are 2 references - ourselves and the family state.
-        if Arc::strong_count(&self.inner) != 2 {
-            // No - there is another RefSync, so we do not need to clean up.
-            return;
-        }
+        // If we are the last RefSync aligned to our origin thread then we need to drop the
+        // thread-specific state of that thread (which need not be the thread we are dropped on).
+        self.family
+            .clear_thread_instance_if_last_ref(self.origin, &self.inner);
 
-        self.family.clear_current_thread_instance();
-
-        // `self.inner` is now the last reference to the current thread's instance of T
+        // If so, `self.inner` is now the last reference to the origin thread's instance of T
         // and this instance will be dropped once this function returns and drops the last `Arc<T>`.
     }
 }
@@ -321,11 +324,20 @@ where
         }
     }
 
-    fn clear_current_thread_instance(&self) {
-        // We need to clear the thread-specific state for this thread.
-        let thread_id = thread::current().id();
-
+    /// Removes the thread-specific state of `thread_id` if `instance` (the reference held by the
+    /// `RefSync` being dropped) is the last one besides the one in the thread-specific state.
+    fn clear_thread_instance_if_last_ref(&self, thread_id: ThreadId, instance: &Arc<T>) {
+        // A `RefSync` may be dropped on any thread, concurrently with other `RefSync` aligned to
+        // the same thread, so the reference count is only meaningful under the write lock:
+        // new references are only made from the map (under a lock) or from an existing `RefSync`.
         let mut map = self.thread_specific.write().expect(ERR_POISONED_LOCK);
+
+        // Note that there are 2 references - the `RefSync` being dropped and the family state.
+        if Arc::strong_count(instance) != 2 {
+            // No - there is another RefSync, so we do not need to clean up.
+            return;
+        }
+
         map.remove(&thread_id);
     }
 }
@@ -553,6 +565,48 @@ mod tests {
 
         // Should be back to 2 here - the thread-local state was dropped when the thread exited.
         assert_eq!(Arc::strong_count(&cache.shared_value), 2);
+    }
+
+    #[test]
+    fn thread_state_dropped_when_last_ref_dropped_on_another_thread() {
+        let linked_cache = InstancePerThreadSync::new(TokenCache::new());
+
+        let cache = linked_cache.acquire();
+        cache.increment();
+
+        // Link + this thread's instance.
+        assert_eq!(Arc::strong_count(&cache.shared_value), 2);
+
+        let linked_cache_clone = linked_cache.clone();
+
+        thread::spawn(move || {
+            // The other thread has its own instance, which the foreign `RefSync` must not disturb.
+            let own = linked_cache_clone.acquire();
+            own.increment();
+            assert_eq!(own.local_value(), 1);
+            assert_eq!(Arc::strong_count(&own.shared_value), 3);
+
+            // The last `RefSync` aligned to the first thread is dropped here,
+            // which drops the instance of the first thread - and only that one.
+            drop(cache);
+            assert_eq!(Arc::strong_count(&own.shared_value), 2);
+
+            // Still the same instance for this thread.
+            let own_again = linked_cache_clone.acquire();
+            assert_eq!(own_again.local_value(), 1);
+        })
+        .join()
+        .unwrap();
+
+        // We get a fresh instance now, initialized from scratch for this thread.
+        let cache = linked_cache.acquire();
+        assert_eq!(cache.local_value(), 0);
+        assert_eq!(Arc::strong_count(&cache.shared_value), 2);
+
+        // Nothing is left behind in the thread-specific state (asserted when the family
+        // state is dropped).
+        drop(cache);
+        drop(linked_cache);
     }
 
     // The type used to trigger the Occupied branch in current_thread_instance().
